@@ -57,7 +57,7 @@ fn c03(args: &Args) -> i32 {
         spec,
         tier: args.tier,
         seed: args.seed,
-        runs: runs(args, 300_000, 6_000_000),
+        runs: runs(args, 300_000, 2_000_000),
         workers: args.workers,
     };
     drive(
@@ -201,7 +201,7 @@ fn c20(args: &Args) -> i32 {
         ],
         unchecked: vec!["lock-free internals of dashmap/crossbeam are not explored at their own atomic granularity".into()],
     };
-    let batch = Batch { spec, tier: args.tier, seed: args.seed, runs: runs(args, 2_000, 30_000), workers: args.workers };
+    let batch = Batch { spec, tier: args.tier, seed: args.seed, runs: runs(args, 2_000, 15_000), workers: args.workers };
     drive(
         batch,
         &|seed, i| {
@@ -276,7 +276,7 @@ fn c13(args: &Args) -> i32 {
             "blank nodes in SPARQL updates (fresh labels per request)".into(),
         ],
     };
-    let batch = Batch { spec, tier: args.tier, seed: args.seed, runs: runs(args, 20_000, 1_000_000), workers: args.workers };
+    let batch = Batch { spec, tier: args.tier, seed: args.seed, runs: runs(args, 20_000, 300_000), workers: args.workers };
     drive(
         batch,
         &|seed, i| {
@@ -390,7 +390,7 @@ fn c17(args: &Args) -> i32 {
             "ordering of a parallel Sort's output: execute() returns per-worker partials without a merge phase, only the multiset is judged".into(),
         ],
     };
-    let batch = Batch { spec, tier: args.tier, seed: args.seed, runs: runs(args, 12_000, 600_000), workers: args.workers };
+    let batch = Batch { spec, tier: args.tier, seed: args.seed, runs: runs(args, 12_000, 200_000), workers: args.workers };
     let minimise = |f: &Finding| -> Finding { if f.replay["engine"] == "SPILL" { eng_spill::minimise(f) } else { f.clone() } };
     drive(
         batch,
